@@ -11,6 +11,7 @@ def J(harness, label="", covers=None, cfg=None, **params):
 
 
 PROPS = {}
+NA = {}
 
 # ------------------------------------------------------------------------------------------- C07
 c07 = "vh/c07."
@@ -32,7 +33,9 @@ PROPS["C07"] = {
         + [J(c07 + "UniEmbed", np=p, nq=q) for p in (0, 1) for q in (0, 1)]
         + [J(c07 + "U16Embed", np=p, nq=q, covers=["bmp unit", "surrogate pair"]) for p in (0, 1) for q in (0, 1)]
     ),
-    "bounds": {},
-    "outside": [],
-    "assumptions": [],
+    "bounds": {"quick": "round trips: every byte string of length <= 3 (octal, hex); every string of <= 2 arbitrary Unicode scalar values (unicode, utf16); every byte string of length <= 3 incl. invalid UTF-8; arbitrary parser input: every byte string of length <= 7 (octal, hex), <= 12 (unicode, utf16); embedded escapes: every well-formed escape (all values, both letter cases) between every backslash-free prefix/suffix of <= 2 (oct/hex) / <= 1 (unicode/utf16) bytes"},
+    "outside": ["longer inputs", "exact output for escapes adjacent to other escapes (only no-panic/length/no-backslash-identity is asserted for arbitrary input, as in the property)"],
+    "assumptions": ["dst passed to the Parse functions has len(src) bytes, as the ToString wrappers allocate it"],
+    "level_text": "Bounded symbolic model checking of the real strz codecs: every feasible path of Format/Parse (and ToString forms) for all inputs within the length bounds is executed symbolically; round-trip, shape, length, identity and embedding assertions are decided by the solver for all byte values on each path.",
+    "level_note": "Trusted: go/ssa translation, gosym interpreter (cross-validated on every run by natively replaying sampled path witnesses), z3. Outside the bound: inputs longer than stated.",
 }
